@@ -151,6 +151,20 @@ Proof.
   rewrite Hi. rewrite Pk_shift.
   apply (Pk_window L d0 d1 g0 g1 (-1) L (lo - t) (hi - t) p d); unfold lo, hi; lia.
 Qed.
+(* the kernel at any output index and any covering window is the canonical kernel of its parity *)
+Lemma Pk_canonical ka kb i d : 0 < L ->
+  (forall k, ~(ka <= k < kb) -> ~(0 <= i + (L-2) - 2*k < L)) -> ka <= kb ->
+  Pk L d0 d1 g0 g1 ka kb i d = Pk L d0 d1 g0 g1 (-1) L (i mod 2) d.
+Proof.
+  intros HL Hwin Hab.
+  set (p := i mod 2). set (t := i / 2).
+  assert (Hi: i = p + 2*t) by (unfold p, t; lia).
+  assert (Hp: 0 <= p < 2) by (unfold p; lia).
+  set (lo := Z.min ka (t - 1)). set (hi := Z.max kb (t + L)).
+  rewrite <- (Pk_window L d0 d1 g0 g1 ka kb lo hi i d) by (try (unfold lo, hi; lia); intros k Hk Hn; apply Hwin; exact Hn).
+  rewrite Hi at 1. rewrite Pk_shift.
+  apply (Pk_window L d0 d1 g0 g1 (-1) L (lo - t) (hi - t) p d); unfold lo, hi; lia.
+Qed.
 End PRshift.
 
 (* ---------------- periodization: the code's single fold is the circular synthesis when L-2 <= N ---------------- *)
